@@ -76,4 +76,4 @@ def impl_converter(stub_function: Optional[Callable] = None, *, recipe: Iterable
     """
     if stub_function is None:
         return _global_retort.impl_converter(recipe=recipe)
-    return _global_retort.impl_converter(stub_function)
+    return _global_retort.impl_converter(stub_function, recipe=recipe)
